@@ -4,7 +4,7 @@
    - rational values with the law given as look-up tables (outputs of a real notch approximation law).
    Derived recorder columns S_a, S_m, epsilon_a, epsilon_m, R. *)
 From Coq Require Import ZArith QArith Qabs List Bool Lia.
-From PL Require Import Rainflow.Model HCM.Model HCM.Load.
+From PL Require Import Rainflow.Model HCM.Model HCM.Load HCM.Select.
 Import ListNotations.
 Open Scope Z_scope.
 
@@ -63,6 +63,20 @@ Definition mobs (s : list Z) :=
   let e := mtrace s in
   (map (fun j => map (fun r => let r' := proj_rec j r in (r', derived r')) (mrecords e)) (seq 0 n),
    map (at_ 0) (strain_values (list Z) e), n_first_run (list Z) e).
+(* variants of the recorder (HCM.Select): [pwc] = the corner points of a closed hysteresis are ordered for every assessment
+   point separately (repair of finding C05-hysteresis-minmax-first-node), [pwl] = the running strain extremes are updated for
+   every point separately (repair of C05-hcm-minmax-strain-first-node).  false/false = the code as it is = [mrecords]
+   (FullThm.mrecords_v_ff); the harness decides per run which variant the tree implements by replaying the findings' witnesses. *)
+Definition pwmin (a b : list Z) := vec n (fun j => Z.min (at_ j a) (at_ j b)).
+Definition pwmax (a b : list Z) := vec n (fun j => Z.max (at_ j a) (at_ j b)).
+Definition msel_min (pw : bool) : list Z -> list Z -> list Z := if pw then pwmin else sel_min (list Z) vltb.
+Definition msel_max (pw : bool) : list Z -> list Z -> list Z := if pw then pwmax else sel_max (list Z) vltb.
+Definition mrecords_v (pwc pwl : bool) (evs : list (event (list Z))) :=
+  records_g (list Z) vneg vabs (msel_min pwc) (msel_max pwc) (msel_min pwl) (msel_max pwl) mzero mzero evs.
+Definition mobs_of (pwc pwl : bool) (e : list (event (list Z))) :=
+  (map (fun j => map (fun r => let r' := proj_rec j r in (r', derived r')) (mrecords_v pwc pwl e)) (seq 0 n),
+   map (at_ 0) (strain_values (list Z) e), n_first_run (list Z) e).
+Definition mobs_v (pwc pwl : bool) (s : list Z) := mobs_of pwc pwl (mtrace s).
 End Multi.
 
 (* ---------- rational values, law given by tables (outputs of a real law, recorded by the harness) ---------- *)
